@@ -43,7 +43,7 @@ Judge(e, rg) ==
 (* an event with "reset" = 1 starts a new history.                          *)
 NextRegs(e, rg) ==
   LET base == IF "reset" \in DOMAIN e THEN <<>> ELSE rg
-  IN IF e.p = "C08" /\ "dst" \in DOMAIN e THEN GhostC08(e, base) ELSE base
+  IN IF e.p = "C08" THEN GhostC08(e, base) ELSE base
 
 Init == l = 1 /\ regs = <<>> /\ nbad = 0
 
